@@ -43,10 +43,11 @@ class ModuleInstance(abc.ABC):
         )
         table = self._tables[table_idx]
         elem = self._elems[elem_idx]
-        if s + n > elem.size():
-            raise ValueError("s + n > elem.size")
-        if d + n > table.size():
-            raise ValueError("d + n > table.size")
+        # The operands are unsigned 32 bit values:
+        d, s, n = d & 0xFFFFFFFF, s & 0xFFFFFFFF, n & 0xFFFFFFFF
+        # Check bounds up front, nothing is written when trapping:
+        if s + n > elem.size() or d + n > table.size():
+            raise WasmTrapException("out of bounds table access")
         for index in range(n):
             obj = elem.get_item(s + index)
             table.set_item(d + index, obj)
@@ -59,10 +60,10 @@ class ModuleInstance(abc.ABC):
         )
         x_table = self._tables[x_table_idx]
         y_table = self._tables[y_table_idx]
-        if d + n > x_table.size():
-            raise ValueError("d + n > x_table.size")
-        if s + n > y_table.size():
-            raise ValueError("s + n > y_table.size")
+        # The operands are unsigned 32 bit values:
+        d, s, n = d & 0xFFFFFFFF, s & 0xFFFFFFFF, n & 0xFFFFFFFF
+        if d + n > x_table.size() or s + n > y_table.size():
+            raise WasmTrapException("out of bounds table access")
 
         # Regions may overlap, so check dest and source:
         if d <= s:
@@ -78,12 +79,18 @@ class ModuleInstance(abc.ABC):
     def table_fill(self, table_idx: int, i: int, val: int, n: int) -> None:
         logger.debug(f"table_fill({table_idx=}, {i=}, {val=}, {n=})")
         table = self._tables[table_idx]
+        # The operands are unsigned 32 bit values:
+        i, n = i & 0xFFFFFFFF, n & 0xFFFFFFFF
+        if i + n > table.size():
+            raise WasmTrapException("out of bounds table access")
         for x in range(n):
             index = i + x
             table.set_item(index, val)
 
     def elem_drop(self, elem_idx: int) -> None:
-        pass
+        """Drop an element segment: its size becomes 0."""
+        logger.debug(f"elem_drop({elem_idx=})")
+        self._elems[elem_idx].drop()
 
     def memory_grow(self, memory_idx: int, amount: int) -> int:
         """Grow memory and return the old size"""
@@ -242,6 +249,8 @@ class ModuleInstance(abc.ABC):
                 for i, _ in enumerate(elem.refs):
                     ptr = elem_instance.get_item(i)
                     table.set_item(offset + i, ptr)
+                # An active segment is dropped once it is copied:
+                elem_instance.drop()
 
     @abc.abstractmethod
     def get_func_by_index(self, index: int):
@@ -280,6 +289,9 @@ class ElemInstance(abc.ABC):
 
     def size(self) -> int:
         return self._size
+
+    def drop(self) -> None:
+        self._size = 0
 
     @abc.abstractmethod
     def get_item(self, index: int):
